@@ -44,3 +44,7 @@ Definition c05_rto_exit_b6_class (cfg : vconfig) (st : fstep) : bool :=
    was sent: the receive loop stops early only on a closed connection or a blocked transport) *)
 Definition post_open (cfg : vconfig) (st : fstep) : bool :=
   negb (state_is_closed (f_state (fs_post st)) (vc_wait_last_ack cfg)).
+
+(* the zero-window clause (c05_zero_window_ok) for the polls that end with the connection still open *)
+Definition c05_zero_window_ok_open (cfg : vconfig) (st : fstep) : bool :=
+  if post_open cfg st then c05_zero_window_ok cfg st else true.
